@@ -9,8 +9,8 @@ from . import common as C
 PROP = "C14"
 PROPS_FILE = "theories/Props/C14.v"
 THEOREMS = ["c14_only_explicit_below", "c14_only_implicit_below", "c14_both_below", "c14_neither_below_implicit",
-            "c14_neither_below_explicit", "c14_signature", "c14_drawn_generators_are_seeded", "c14_fair", "c14_name"]
-GEN_FILES = ["DecisionGen.v", "RngGen.v"]
+            "c14_neither_below_explicit", "c14_signature", "c14_drawn_generators_are_seeded", "c14_fair", "c14_name", "c14_wiring"]
+GEN_FILES = ["DecisionGen.v", "RngGen.v", "WiringGen.v"]
 TRUSTED = ["Coq 8.16.1 kernel + vm_compute (no native_compute)",
            "translator harness/translate.py: gen_decision (ast of StiffnessTester._draw_decision -> Gallina, fail-closed), gen_rng (which generators are seeded before / drawn from during spike generation)",
            "theorems closed under the global context; c14_fair assumes (hypothesis) that spike generation reads only the generators the translator found in spike_generator.py",
